@@ -68,6 +68,9 @@ def comp_blocks(comp):
         'outfunc': [('of', 'outfunc', {}), ('s1', 'sync', {})],
         'outasync': [('oa', 'outasync', {'mode': 'wait'}), ('s1', 'sync', {}), ('oc', 'outasync', {'mode': 'cancel'})],
         'outasync-start': [('os', 'outasync', {'mode': 'start'}), ('s1', 'sync', {})],
+        # results of 'oj' keep arriving at 'og' after og's stop() (og is in its guard time then)
+        'outasync-chain': [('oj', 'outasync', {'mode': 'wait', 'next': 'og'}), ('s1', 'sync', {}),
+                           ('og', 'outasync', {'mode': 'cancel', 'guard': 2})],
         'repeat': [('rp', 'repeat', {}), ('s1', 'sync', {})],
         'slow-init': [('i1', 'ainit', {'ainit': 5}), ('i2', 'ainit', {'ainit': 7}), ('s1', 'sync', {})],
         'valuepoll': [('vp', 'valuepoll', {}), ('s1', 'sync', {})],
@@ -78,7 +81,7 @@ def comp_blocks(comp):
 
 
 COMPS = ['sync2', 'async-stop', 'async-stop-timeout', 'async-stop-timeout2', 'maintask', 'fsm', 'outfunc', 'outasync',
-         'outasync-start', 'repeat', 'slow-init', 'valuepoll', 'cblock', 'chain', 'mix']
+         'outasync-start', 'outasync-chain', 'repeat', 'slow-init', 'valuepoll', 'cblock', 'chain', 'mix']
 PROBE_KINDS = {'sync', 'astop', 'maintask', 'ainit'}
 
 
@@ -285,9 +288,14 @@ def run_case(cfg, acc):
                       on_success=edzed.Event(nxt, 'put') if nxt else None,
                       stop_data={'value': f'STOP-{name}'})
               elif kind == 'outasync':
+                  okw = {}
+                  if params.get('next'):
+                      okw['on_success'] = edzed.Event(params['next'], 'put')
+                  if params.get('guard'):
+                      okw['guard_time'] = params['guard']
                   blk = edzed.OutputAsync(name, coro=ocoro(name, fphase == 'output-function'),
                                           mode=params['mode'], on_error=None,
-                                          stop_data={'value': 'STOP'}, stop_timeout=10)
+                                          stop_data={'value': 'STOP'}, stop_timeout=10, **okw)
               elif kind == 'repeat':
                   blk = edzed.Repeat(name, dest='s1', etype='ev', interval=3)
               elif kind == 'valuepoll':
